@@ -28,6 +28,7 @@ func init() {
 			runFieldIdentity(c, "C04-FIELDID")
 			runExemptType(c, "C04-EXEMPT")
 			runAllElems(c, "C04-ALLELEMS")
+			runReqDescend(c, "C04-REQDESCEND")
 		},
 	})
 }
